@@ -299,3 +299,62 @@ fn c14_k_lunar_week_first_day() {
   assert!(unsafe { REC_YMD } == (y, m, 1) && unsafe { LW_FROM } == (y, m, 1), "counted from day 1 of the same lunar month (leap flag kept)");
   kani::cover!(m == -4 && i == 5, "lunar_week_first_day reachable (leap month)");
 }
+
+// ---- C03: LunarMonth::new on the real body - which (year, month) are accepted and which position in the year the month
+// gets. The leap month of the year (packed table), the solstice and the new-moon instants (astronomy, L-NEW) are ARBITRARY
+// answers of stubs, so the index rule is proved for every leap configuration.
+static mut NM_LEAP: usize = 7811;      // leap month answered for the requested year
+static mut NM_PREV_LEAP: usize = 7812; // leap month answered for the year before
+static mut NM_YEAR: isize = -7813;
+fn nm_get_leap_month(y: &LunarYear) -> usize { unsafe { if y.get_year() == NM_YEAR { NM_LEAP } else { NM_PREV_LEAP } } }
+fn nm_term_from_index(year: isize, index: isize) -> SolarTerm { crate::tyme::solar::verif_k::mk_term(year, index, 2451545.0) }
+fn nm_calc_shuo(_jd: f64) -> f64 { let v: f64 = kani::any(); kani::assume(v > -2000000.0 && v < 4000000.0); v }
+#[kani::proof]
+#[kani::unwind(26)]
+#[kani::stub(alloc::fmt::format, stub_format)]
+#[kani::stub(LunarYear::get_leap_month, nm_get_leap_month)]
+#[kani::stub(SolarTerm::from_index, nm_term_from_index)]
+#[kani::stub(ShouXingUtil::calc_shuo, nm_calc_shuo)]
+fn c03_k_month_new_index() {
+  let y: isize = kani::any(); let m: isize = kani::any(); let leap: usize = kani::any(); let pleap: usize = kani::any();
+  kani::assume(y >= 0 && y <= 9999 && m >= -14 && m <= 14 && leap <= 12 && pleap <= 12);
+  unsafe { NM_YEAR = y; NM_LEAP = leap; NM_PREV_LEAP = pleap; }
+  let r = LunarMonth::new(y, m);
+  let am = if m < 0 { -m } else { m };
+  let legal = m != 0 && am <= 12 && (m > 0 || am as usize == leap);
+  assert!(r.is_ok() == legal, "accepted exactly: month 1..12, or minus the leap month of that year");
+  if let Ok(ref v) = r {
+    let want_index = am - 1 + if m < 0 || (leap > 0 && am as usize > leap) { 1 } else { 0 };
+    assert!(v.get_index_in_year() as isize == want_index, "position in the year: month - 1, plus one for the leap month itself and every month after it");
+    assert!(v.get_year() == y && v.get_month() as isize == am && v.is_leap() == (m < 0) && v.get_month_with_leap() == m, "year / month / leap flag stored as given");
+  }
+  core::mem::forget(r);
+  kani::cover!(m == -12 && leap == 12, "month_new_index reachable (leap twelfth month)");
+}
+
+// ---- C02: the order and equality of lunar days follow (year, position of the month in the year, day) - a leap month sorts
+// directly after the month whose number it carries. Both days are arbitrary well-formed days; months of the same year
+// share that year's leap month L (arbitrary 0..12) and have index = |month| - 1, plus one for the leap month and the months after it.
+fn any_wf_lunar_day(y: isize, leap_of_year: usize) -> (LunarDay, i64) {
+  let m: isize = kani::any(); let d: usize = kani::any(); let dc: usize = kani::any(); let first: i64 = kani::any();
+  kani::assume(m != 0 && m >= -12 && m <= 12 && dc >= 29 && dc <= 30 && d >= 1 && d <= dc && first >= 1721000 && first <= 5374000);
+  let am = if m < 0 { -m } else { m } as usize;
+  kani::assume(m > 0 || am == leap_of_year);
+  let idx = am - 1 + if m < 0 || (leap_of_year > 0 && am > leap_of_year) { 1 } else { 0 };
+  (LunarDay { month: mk_month(y, m, dc, idx, first), day: d, solar_day: RefCell::new(None), sixty_cycle_day: RefCell::new(None) }, (y as i64 * 16 + idx as i64) * 32 + d as i64)
+}
+#[kani::proof]
+#[kani::stub(alloc::fmt::format, stub_format)]
+fn c02_k_lunar_order() {
+  let ya: isize = kani::any(); let yb: isize = kani::any(); let la: usize = kani::any(); let lb: usize = kani::any();
+  kani::assume(ya >= -1 && ya <= 9999 && yb >= -1 && yb <= 9999 && la <= 12 && lb <= 12 && (ya != yb || la == lb));
+  let (a, ka) = any_wf_lunar_day(ya, la);
+  let (b, kb) = any_wf_lunar_day(yb, lb);
+  assert!(a.is_before(b.clone()) == (ka < kb), "is_before == order of (year, month position in the year, day)");
+  assert!(a.is_after(b.clone()) == (ka > kb), "is_after == the reverse order");
+  assert!((a == b) == (ka == kb), "equal exactly when year, month (with leap flag) and day are equal");
+  kani::cover!(ya == yb && a.get_month() == -b.get_month() && ka > kb, "lunar_order reachable (a leap month after its namesake)");
+  core::mem::forget(a); core::mem::forget(b);
+}
+// (LunarHour::is_before / is_after clone and drop lunar days inside the function under test - the drop glue CBMC cannot
+//  finish, see DESIGN 8.2 - so their order stays an execution check: c02_lunar_side.)
